@@ -217,7 +217,11 @@ func GenPathPlan(r *rand.Rand) PathPlan {
 	uniq := 0
 	val := func(k int) string {
 		uniq++
-		return fmt.Sprintf("%s#%d.%d", []string{"a", "bb", "ccc"}[r.Intn(3)], k, uniq)
+		v := fmt.Sprintf("%s#%d.%d", []string{"a", "bb", "ccc"}[r.Intn(3)], k, uniq)
+		if uniq%4 == 0 {
+			v += LongPad(uniq)
+		}
+		return v
 	}
 	for _, k := range perm {
 		p.Init = append(p.Init, [2]any{k, val(k)})
